@@ -100,6 +100,8 @@ func NewWithStore(config ...Config) (fiber.Handler, *Store) {
 			m.saveSession()
 		}
 
+		// The middleware object goes back to the pool: it must not stay reachable through the context
+		c.Locals(middlewareContextKey, nil)
 		releaseMiddleware(m)
 		return stackErr
 	}
